@@ -1123,6 +1123,13 @@ class Engine:
             return self.cast(args[0], f, st, n)
         if isinstance(f, Builtin):
             from . import library
+            cs = self.spec.callees.get(f.name)
+            if cs is not None:
+                # library function under an (assumed) contract supplied by the sidecar
+                bound = dict(zip(cs.params, args))
+                bound.update(kw)
+                self.note_assumed(f'library contract for {f.name}: ' + '; '.join(cs.ensures))
+                return self.contract_call(f.name, cs, bound, st, n)
             h = library.BUILTINS.get(f.name)
             if h is None:
                 raise Unsupported('call of ' + f.name)
